@@ -5,8 +5,10 @@ import SecsModel.Spec.E30Comm
 # Model.SecsHandle — what an inbound data message causes to be written (hand model of the Python)
 
 Follows, statement by statement:
-* the gate of `HsmsProtocol._on_connection_message_received` (hsms/protocol.py): not selected ⇒ Reject.req; somebody waits
-  for these system bytes ⇒ handed to the waiter; otherwise the `message_received` event;
+* the gate of `HsmsProtocol._on_connection_message_received` (hsms/protocol.py): not selected ⇒ Reject.req; the message is
+  a reply (even function — the guard is generated: `Gen.Callbacks.waiterRepliesOnly`) and somebody waits for these system
+  bytes ⇒ handed to the waiter; otherwise the `message_received` event (a primary of the peer that happens to carry the
+  system bytes of an open transaction of ours is a new transaction);
 * `GemHandler._on_message_received` (gem/handler.py): only the branch that `Gen.Callbacks.dispatch` marks as dispatching
   (COMMUNICATING) reaches `_handle_stream_function`; the S1F13/S1F14 handling of WAIT_CRA is `Model.GemComm`'s;
 * `SecsHandler._handle_stream_function` / `_handle_unknown_functions` (secs/handler.py) with
@@ -101,10 +103,14 @@ def handleStreamFunction (env : Env) (m : Msg) : List Frame :=
 def dispatches (c : Comm) : Bool :=
   Gen.Callbacks.dispatch.any fun r => r.1 == c.name && r.2.1
 
+/-- the message goes to a caller blocked in `send_and_waitfor_response` -/
+def toWaiter (env : Env) (m : Msg) : Bool :=
+  (!Gen.Callbacks.waiterRepliesOnly || m.f % 2 == 0) && env.waiting.contains m.sys
+
 /-- an inbound data message, from the protocol layer down -/
 def handle (env : Env) (m : Msg) : List Frame :=
   if !env.selected then [.reject m.sys]
-  else if env.waiting.contains m.sys then []
+  else if toWaiter env m then []
   else if dispatches env.comm then handleStreamFunction env m
   else []
 
